@@ -1,10 +1,14 @@
 package c05
 
 import (
+	"encoding/json"
 	"fmt"
 	"os"
+	"path/filepath"
+	"pgregory.net/rapid"
 	"sort"
 	"strconv"
+	"strings"
 	"testing"
 
 	"verifharness/vk"
@@ -63,6 +67,93 @@ func TestSurvey(t *testing.T) {
 		fmt.Printf("== %s: %d cases, %d blocks, %d distinct failure keys\n", name, pl.total/stride, len(pl.blocks), len(keys))
 		for _, k := range keys {
 			fmt.Printf("%-60s %7d  %s\n", k, found[k].n, found[k].msg)
+		}
+	}
+}
+
+// TestSurveySampled (C05_SURVEY=1) aggregates the failure keys of the sampled
+// part without stopping; use -rapid.checks=N.
+func TestSurveySampled(t *testing.T) {
+	if os.Getenv("C05_SURVEY") == "" {
+		t.Skip("set C05_SURVEY=1")
+	}
+	type agg struct {
+		n   int
+		msg string
+	}
+	found := map[string]*agg{}
+	check := runCase("sampled")
+	n, invalid := 0, 0
+	rapid.Check(t, func(rt *rapid.T) {
+		c := drawCase(rt)
+		n++
+		if op := opByName[c.Op]; op == nil || !validCase(c, op) {
+			invalid++
+		}
+		var f *vk.Failure
+		func() {
+			defer func() {
+				if r := recover(); r != nil {
+					f = vk.Failf("unexpected-panic-in-check", "%v case=%+v", r, c)
+				}
+			}()
+			f = check(c)
+		}()
+		if f != nil {
+			a := found[f.Key]
+			if a == nil {
+				a = &agg{msg: f.Msg}
+				found[f.Key] = a
+			}
+			a.n++
+		}
+	})
+	keys := make([]string, 0, len(found))
+	for k := range found {
+		keys = append(keys, k)
+	}
+	sort.Strings(keys)
+	fmt.Printf("== sampled: %d cases (%d invalid), %d distinct failure keys\n", n, invalid, len(keys))
+	for _, k := range keys {
+		fmt.Printf("%-60s %7d  %s\n", k, found[k].n, found[k].msg)
+	}
+}
+
+// TestWriteWitnesses (C05_WITNESS=<dir>) writes, for every failure key met in
+// the quick exhaustive plans, the first (smallest) failing case as a replay
+// file. Development aid for maintaining /verif/replays/C05.
+func TestWriteWitnesses(t *testing.T) {
+	dir := os.Getenv("C05_WITNESS")
+	if dir == "" {
+		t.Skip("set C05_WITNESS=<dir>")
+	}
+	type cf struct {
+		Property string      `json:"property"`
+		Sub      string      `json:"sub"`
+		Config   string      `json:"config"`
+		Failure  *vk.Failure `json:"failure"`
+		Case     any         `json:"case"`
+	}
+	write := func(sub string, f *vk.Failure, c any) {
+		f.Key = sub + "/" + f.Key
+		b, _ := json.MarshalIndent(cf{"C05", sub, "default", f, c}, "", " ")
+		name := strings.NewReplacer("/", "_", ":", "_").Replace(strings.TrimPrefix(f.Key, sub+"/defect/"))
+		_ = os.WriteFile(filepath.Join(dir, name+".json"), b, 0o644)
+	}
+	seen := map[string]bool{}
+	plans := []*plan{
+		buildPlan(sameParentSpace(4), allOps, true),
+		buildPlan(vectorSpace(), func(o *opDef) bool { return o.Recv == 'V' }, true),
+		buildPlan(mixedSpace(4), allOps, false),
+	}
+	check := runCase("witness")
+	for _, pl := range plans {
+		for i := 0; i < pl.total; i++ {
+			c := pl.gen(i)
+			if f := check(c); f != nil && !seen[f.Key] {
+				seen[f.Key] = true
+				write(subName, f, c)
+			}
 		}
 	}
 }
